@@ -154,6 +154,9 @@ func generate() {
 	funcEvents("evStartGetTraversal", "exts/getput/getput.go", "", "startGetTraversal")
 	funcEvents("evRefreshBucket", "server.go", "Server", "refreshBucket")
 	funcEvents("evNodeInfoUnmarshalBinary", "krpc/nodeinfo.go", "NodeInfo", "UnmarshalBinary")
+	funcEvents("evLimiterWait", "ratelimit_serial.go", "", "limiterWait")
+	defStrList("limiterCancelSites", callSitesWithArgs("CancelAt", []int{0}), "enclosing function | instant argument of every CancelAt call (abandoned limiter reservation), whole module, non-test files")
+	defStrList("limiterReserveSites", callSitesWithArgs("ReserveN", []int{0}), "enclosing function | instant argument of every ReserveN call, whole module, non-test files")
 
 	// every call of socket.WriteTo / WriteTo( outside tests: function it sits in
 	defStrList("writeToSites", callSites("WriteTo"), "functions (file:recv.name) containing a call of a method named WriteTo, whole module, non-test files")
